@@ -38,13 +38,13 @@ RULE = ('cases: (a) agent collectors: seeded runs of 30 timesteps with a populat
         'records held in between and an empty collection (b); distinct by the run signature.')
 ASSUMPTIONS = ['file clause checked for the default clear_records_on_write=True and filemode "a" (the property\'s wording)',
                'per-agent / composite functions are pure', 'os._exit after step t stands for a crash between timesteps']
-FLOORS = {'quick': {'nested_models_run_inside_a_collection': 427, 'environment_installed_after_collector': 70, 'agent_steps': 10000, 'records_compared': 5000, 'empty_records_skipped': 470, 'unscheduled_steps': 2000,
+FLOORS = {'quick': {'collections_interrupted': 138, 'collection_passes_failing_half_way': 168, 'nested_models_run_inside_a_collection': 427, 'environment_installed_after_collector': 70, 'agent_steps': 10000, 'records_compared': 5000, 'empty_records_skipped': 470, 'unscheduled_steps': 2000,
                     'mid_step_population_changes': 2000, 'composite_none': 1000, 'composite_dict': 1000, 'shared_composite_dict_calls': 1000, 'history_unchanged_checks': 8000,
                     'file_steps': 4900, 'flushes': 1500, 'conservation_checks': 4900, 'empty_collections': 712, 'opens_observed': 1500,
                     'killed_children': 14, 'default_priority_runs': 200, 'big_many_systems_runs': 4, 'big_flush_batches': 4, 'collectors_attached_late': 100, 'late_collector_twin_runs': 100,
                     'reach:Collectors.AgentCollector.collect': 6500, 'reach:Collectors.FileCollector.execute': 4100,
                     'reach:Collectors.FileCollector.write_records': 1800},
-          'thorough': {'agent_steps': 750000, 'file_steps': 300000, 'killed_children': 970}}
+          'thorough': {'agent_steps': 750000, 'file_steps': 300000, 'killed_children': 969}}
 EXHAUSTIVE = {}
 
 OPENS = {}
@@ -104,8 +104,14 @@ def fixtures():
             self.n_collections = 0
             self.everything = []
 
+        interrupt_at = None
+
         def collect(self):
             t = self.model.systems.timestep
+            if self.interrupt_at is not None and self.interrupt_at[0] == self.n_collections:
+                exc = self.interrupt_at[1]
+                self.interrupt_at = None
+                raise exc('collect() is interrupted before it collected anything')
             k = self.plan[self.n_collections % len(self.plan)]
             for j in range(k):
                 s = f'<{t}.{self.n_collections}.{j}>\n'
@@ -146,7 +152,15 @@ def case_agent(ctx, case):
     incl_t = rng.random() < 0.5
     start, end, freq = rng.choice([(0, sys.maxsize, 1), (rng.randint(0, 5), rng.randint(8, 40), rng.randint(1, 4)), (3, sys.maxsize, 2)])
 
+    fail_after = [None]
+
     def f(agent):
+        if fail_after[0] is not None:
+            fail_after[0] -= 1
+            if fail_after[0] < 0:
+                fail_after[0] = None
+                from vlib import faults
+                raise faults.Boom('the per-agent function fails half-way through the pass')
         v = agent[Val].v
         if mode == 'none_for_all':
             return None
@@ -265,6 +279,27 @@ def case_agent(ctx, case):
             elif kind == 'del' and aid in pop:
                 del pop[aid]
         n_before = len(c.records)
+        touched = {e_[1] for e_ in list(before.get(t, ())) + list(late.get(t, ())) + list(after.get(t, ()))}      # (the retry re-runs this timestep's scripts)
+        present = [aid for aid in (exp or {}) if aid in pop and aid not in ('timestep', 'count', 'sum') and aid not in touched]
+        if mode == 'value' and len(present) >= 2 and rng.random() < 0.15:
+            # the per-agent function raises half-way through this pass; the caller catches it, one of the agents already visited leaves,
+            # and the timestep is asked for again: the record is that of the agents THEN in the environment - nothing of the failed pass
+            from vlib import faults
+            fail_after[0] = rng.randint(1, len(present) - 1)
+            _, err = faults.attempt(model.execute)
+            ctx.count('collection_passes_failing_half_way')
+            check(err is not None and len(c.records) == n_before, 'a collection pass whose per-agent function raised appended a record or swallowed the error',
+                  error=repr(err))
+            fail_after[0] = None
+            victim = present[0]
+            env.remove_agent(victim)
+            v_ = pop.pop(victim)
+            exp.pop(victim, None)
+            if 'count' in exp:
+                exp['count'] -= 1
+                exp['sum'] -= v_
+            if comp_mode == 'shared':
+                shared_summary.clear()
         model.execute()
         ctx.count('agent_steps')
         ctx.ev()
@@ -379,8 +414,25 @@ def case_file(ctx, case):
         wc = cfg['write_count']
         collections, flushes, flags, my_opens = 0, 0, set(), 0
         flushed_upto = 0         # index into fc.everything written at the last expected flush
+        from vlib import faults
+        hits = sorted(rng.sample(range(1, 12), 2)) if rng.random() < 0.5 else []
         for t in range(cfg['steps']):
             scheduled = start <= t <= end and (t - start) % freq == 0
+            if scheduled and hits and collections == hits[0]:
+                # this collection is interrupted (KeyboardInterrupt-like, or an ordinary error) before it collected anything; the caller
+                # catches that and asks for the timestep again: nothing is lost, nothing is written twice
+                hits.pop(0)
+                fc.interrupt_at = (collections, rng.choice([faults.Interrupt, faults.Interrupt, faults.Boom]))
+                _, err = faults.attempt(model.execute)
+                ctx.count('collections_interrupted')
+                check(err is not None, 'an error raised inside collect() did not reach the caller')
+                text_ = open(path).read() if os.path.exists(path) else ''
+                if os.path.exists(path):
+                    my_opens += 1
+                if text_ + ''.join(fc.records) != ''.join(fc.everything) or text_ != ''.join(fc.everything[:flushed_upto]):
+                    raise CaseViolation('after an interrupted collection: file text + records held != everything collected so far, or the file no '
+                                        'longer holds exactly the whole flushes made so far (data written twice / out of cadence)',
+                                        file_tail=text_[-120:], held=fc.records[-6:], error=type(err).__name__, cfg=cfg, timestep=t)
             model.execute()
             ctx.count('file_steps')
             if scheduled:
